@@ -127,27 +127,50 @@ def load_known(prop):
     return [e for e in data.get("findings", []) if e.get("property") == prop]
 
 
-def shrink(mod, world, signature, log):
-    """Greedy delta debugging on the abstract world; keeps a candidate only when
-    the same violation signature persists."""
+def _shrink_work(args):
+    modname, world, signature = args
+    mod = load_check(modname)
+    r = execute(mod, world)
+    if r.harness_error:
+        return False
+    return any(v["signature"] == signature for v in r.violations)
+
+
+def shrink(mod, world, signature, log, workers=16):
+    """Greedy delta debugging on the abstract world; keeps a candidate only when the same
+    violation signature persists.  Candidates are evaluated in parallel batches; the first
+    reproducing candidate in generation order wins, so the result does not depend on timing."""
+    import itertools
     budget = SHRINK_BUDGET
     tried = 0
     cur = world
-    improved = True
-    while improved and budget > 0:
-        improved = False
-        for cand in mod.shrink_candidates(cur):
-            if budget <= 0:
-                break
-            budget -= 1
-            tried += 1
-            r = execute(mod, cand)
-            if r.harness_error:
-                continue
-            if any(v["signature"] == signature for v in r.violations):
-                cur = cand
-                improved = True
-                break
+    name = mod.__name__.split(".")[-1]
+    with multiprocessing.Pool(workers) as pool:
+        improved = True
+        while improved and budget > 0:
+            improved = False
+            gen = mod.shrink_candidates(cur)
+            seen = set()
+            while budget > 0:
+                batch = []
+                for cand in gen:
+                    c = canon(cand)
+                    if c in seen or c == canon(cur):
+                        continue
+                    seen.add(c)
+                    batch.append(cand)
+                    if len(batch) >= min(workers, budget):
+                        break
+                if not batch:
+                    break
+                budget -= len(batch)
+                tried += len(batch)
+                oks = pool.map(_shrink_work, [(name, c, signature) for c in batch], chunksize=1)
+                hit = next((c for c, ok in zip(batch, oks) if ok), None)
+                if hit is not None:
+                    cur = hit
+                    improved = True
+                    break
     log("  shrink: %d candidate executions" % tried)
     return cur
 
@@ -269,7 +292,7 @@ def run_check(prop, tier, seed, runs=None, workers=None, wall_cap=None, quiet=Fa
         if len(reported) >= 6:
             continue
         world = d["world"]
-        small = shrink(mod, world, sig, log) if hasattr(mod, "shrink_candidates") else world
+        small = shrink(mod, world, sig, log, workers) if hasattr(mod, "shrink_candidates") else world
         # confirm in a fresh execution; a violation that does not replay is a harness problem
         conf = execute(mod, small)
         cv = [x for x in conf.violations if x["signature"] == sig]
